@@ -173,10 +173,23 @@ func randTreeOpts(r *hlib.Rand) treeOpts {
 
 // runNTree dumps the whole tree of one file and emits an `ntree` case.
 func runNTree(o *hlib.Out, name string, data []byte, format string, p treeOpts) {
+	runNTreeExpr(o, name, data, format, p, "", nil, 0)
+}
+
+// runNTreeExpr: with expr != "" the tree is the decode of a BINARY built by the jq expression
+// (root buffers of any bit length, MultiReader-backed roots) instead of a file; wantRoot/wantBits:
+// the harness's own idea of the root buffer (zero padded), checked against what was captured.
+func runNTreeExpr(o *hlib.Out, name string, data []byte, format string, p treeOpts, expr string, wantRoot []byte, wantBits int64) {
 	treePlanned = map[string]treeOpts{"T": p}
 	treeCaptured = map[string]*treeTruth{}
 	prog := fmt.Sprintf(`(_c10_tree("T")|println), %s(%s)`, p.kind, p.jq())
-	out, _, err := runFq(memFS{name: data}, "-d", format, prog, name)
+	var out string
+	var err error
+	if expr == "" {
+		out, _, err = runFq(memFS{name: data}, "-d", format, prog, name)
+	} else {
+		out, _, err = runFq(nil, "-n", expr+" | "+format+" | ("+prog+")")
+	}
 	if err != nil {
 		o.Stat("ntree_file_failed", 1)
 		return
@@ -195,8 +208,17 @@ func runNTree(o *hlib.Out, name string, data []byte, format string, p treeOpts) 
 	for i, b := range t.roots {
 		roots[i] = fmt.Sprintf("%s:%d", hlib.Hex(b), t.bits[i])
 	}
+	if expr != "" {
+		if len(t.roots) == 0 || t.bits[0] != wantBits || string(t.roots[0]) != string(wantRoot) {
+			o.Verdict("BADOP", "the root buffer fq built is not the bits the harness asked for: "+expr)
+			return
+		}
+	}
 	op := fmt.Sprintf("ntree %s roots=%s vals=%s file=%s fmt=%s", p.text(), strings.Join(roots, ";"), strings.Join(t.vals, ","), name, format)
-	if strings.HasPrefix(name, "synth") || len(data) <= 4096 {
+	if expr != "" {
+		op += fmt.Sprintf(" expr=%s wantbits=%d want=%s", hlib.Hex([]byte(expr)), wantBits, hlib.Hex(wantRoot))
+		o.Stat("ntree_partial_byte_roots", 1)
+	} else if strings.HasPrefix(name, "synth") || len(data) <= 4096 {
 		op += " data=" + hlib.Hex(data) // makes the line replayable on its own
 	}
 	o.Case(op, obsLines(stripANSI(text)))
@@ -309,11 +331,107 @@ func genNested(o *hlib.Out, r *hlib.Rand, repo string, nSynth int, thorough bool
 	runNTree(o, "synthgz/1", zb.Bytes(), "gzip", randTreeOpts(r))
 }
 
+// ---- tree dumps over root buffers whose bit length is not a multiple of 8 (a partial last byte must be
+// shown zero padded), section-reader and MultiReader backed, with at least two displayed values
+
+var tailGroup = &decode.Group{Name: "verif_c10_tail"}
+
+func init() {
+	interp.RegisterFormat(tailGroup, &decode.Format{
+		Description: "verification harness C10: bytes, then a field inside the partial last byte",
+		DecodeFn: func(d *decode.D) any {
+			d.FieldArray("bytes", func(d *decode.D) {
+				for d.BitsLeft() >= 8 {
+					d.FieldU8("b")
+				}
+			})
+			if d.BitsLeft() > 0 {
+				if d.BitsLeft() > 2 && d.PeekUintBits(1) == 1 {
+					d.FieldU("t1", 1)
+				}
+				d.FieldRawLen("tail", d.BitsLeft())
+			}
+			return nil
+		},
+	})
+}
+
+func bytesExpr(b []byte) string {
+	ss := make([]string, len(b))
+	for i, x := range b {
+		ss[i] = fmt.Sprint(x)
+	}
+	return "[" + strings.Join(ss, ",") + "]|tobytes"
+}
+
+func genPartialTrees(o *hlib.Out, r *hlib.Rand, n int) {
+	for i := 0; i < n; i++ {
+		nb := r.Range(2, 40)
+		if r.Intn(6) == 0 {
+			nb = r.Range(40, 300)
+		}
+		b := r.Bytes(nb)
+		format := []string{"verif_c10_tail", "verif_c10_tail", "verif_c10", "msgpack"}[r.Intn(4)]
+		if format == "msgpack" {
+			// one complete value (fixstr / fixarray of fixints) followed by one extra byte that gets cut
+			m := r.Range(0, 12)
+			if r.Bool() {
+				b = append([]byte{0xa0 | byte(m)}, r.Bytes(m)...)
+				for j := 1; j < len(b); j++ {
+					b[j] = byte(33 + int(b[j])%90)
+				}
+			} else {
+				b = append([]byte{0x90 | byte(m)}, r.Bytes(m)...)
+				for j := 1; j < len(b); j++ {
+					b[j] &= 0x7f
+				}
+			}
+			b = append(b, byte(r.U64()))
+		}
+		k := r.Range(1, 7)
+		L := int64(len(b))*8 - int64(k)
+		want := append([]byte(nil), b...)
+		want[len(want)-1] &= byte(0xff << uint(k))
+		src := bytesExpr(b)
+		var expr string
+		switch r.Intn(4) {
+		case 0: // a bit slice decoded in place: the root buffer stays the whole byte buffer
+			expr = fmt.Sprintf("%s|tobits[:-%d]", src, k)
+			want, L = b, int64(len(b))*8
+		case 1: // a fresh buffer of L bits
+			expr = fmt.Sprintf("%s|tobits[:-%d]|tobits", src, k)
+		default: // MultiReader: part boundaries around the last byte
+			a := L - int64(r.Range(0, 20))
+			if r.Intn(3) == 0 {
+				a = int64(len(b)-1) * 8 // right before the partial byte
+			}
+			if a < 0 {
+				a = 0
+			}
+			if r.Bool() || a < 9 {
+				expr = fmt.Sprintf("%s as $x|[($x|tobits[0:%d]),($x|tobits[%d:%d])]|tobits", src, a, a, L)
+			} else {
+				a0 := a - int64(r.Range(1, 8))
+				expr = fmt.Sprintf("%s as $x|[($x|tobits[0:%d]),($x|tobits[%d:%d]),($x|tobits[%d:%d])]|tobits", src, a0, a0, a, a, L)
+			}
+		}
+		p := randTreeOpts(r)
+		p.depth = 0
+		runNTreeExpr(o, fmt.Sprintf("synthpart/%d", i), nil, format, p, expr, want, L)
+	}
+}
+
 func replayNTree(o *hlib.Out, repo string, ws []string) {
 	atoi := func(k string) int { var n int; fmt.Sscanf(kvOf(ws, k), "%d", &n); return n }
 	p := treeOpts{dumpOpts: dumpOpts{kind: kvOf(ws, "k"), lb: atoi("lb"), ab: atoi("ab"), sb: atoi("sb"), db: atoi("db"), color: atoi("c") == 1},
 		depth: atoi("depth"), at: atoi("at")}
 	var data []byte
+	if e := kvOf(ws, "expr"); e != "" {
+		var wb int64
+		fmt.Sscanf(kvOf(ws, "wantbits"), "%d", &wb)
+		runNTreeExpr(o, kvOf(ws, "file"), nil, kvOf(ws, "fmt"), p, string(hlib.UnHex(e)), hlib.UnHex(kvOf(ws, "want")), wb)
+		return
+	}
 	if h := kvOf(ws, "data"); h != "" {
 		data = hlib.UnHex(h)
 	} else if b, err := os.ReadFile(filepath.Join(repo, kvOf(ws, "file"))); err == nil {
